@@ -21,7 +21,7 @@ Property theorems only (helper lemmas: `CalicoVerif.Proofs.C43`).
   send the same RouteUpdate for every such CIDR; `manager_order_independent` — the routeManager's
   stored routes are a function of the last message per destination.
 * `arrival_order_v4cidr_zero_fixed` — regression witness of a defect the oracle found (repaired);
-  `stale_v4_vtep_witness` — an open manager-level finding.
+  `stale_v4_vtep_fixed` — regression witness of a manager-level defect the oracle found (repaired).
 -/
 namespace CalicoVerif.C43
 
@@ -360,13 +360,8 @@ theorem bh_applyOp (m : RM) (op : MOp) (h : BHInv m) : BHInv (m.applyOp op) := b
     | remove d => exact bh_deleteRoute m d h
   | vtep n v =>
     simp only [RM.applyOp, RM.onVtep]
-    split
-    · exact h
-    · split
-      · split
-        · exact h
-        · split <;> exact ⟨h.1, h.2⟩
-      · split <;> exact ⟨h.1, h.2⟩
+    repeat' split
+    all_goals first | exact h | exact ⟨h.1, h.2⟩
   | hostMeta n a =>
     simp only [RM.applyOp, RM.onHostMeta]
     split
@@ -625,24 +620,25 @@ theorem arrival_order_v4cidr_zero_fixed :
   decide
 
 
-/-! ### a stale IPv4 VTEP (finding, routeManager / vxlan manager) -/
+/-! ### a stale IPv4 VTEP (regression witness, vxlan manager) -/
 
 /-- a remote block of node 2 in a VXLAN pool, as the resolver sends it. -/
 def wVxRoute : RouteUpdate :=
   { dst := ⟨3232235584, 26⟩, types := tRemoteWorkload, poolType := ptVXLAN, dstNode := some 2, dstNodeIp := 167772172 }
 
-/-- **manager-level order dependence (finding `order-dep-stale-v4-vtep`)**: the IPv4 vxlan manager
-ignores a VTEP update that has no IPv4 address WITHOUT forgetting the IPv4 VTEP it already holds
-(`vxlan_mgr.go` OnUpdate early return; in the product the EventSequencer coalesces the
-VXLANResolver's remove+update into that single update).  History: node 2's VTEP 192.168.0.2 is
-learnt, then node 2 keeps only an IPv6 VTEP — the block stays routed via the stale VTEP; a manager
-that only ever saw the final VTEP message programs nothing.  Replay: corpus/C43/stale-v4-vtep.ops. -/
-theorem stale_v4_vtep_witness :
+/-- Regression witness for the defect repaired by repo commit f51d894 (oracle signature
+`order-dep-stale-v4-vtep`, replay corpus/C43/stale-v4-vtep.ops): the IPv4 vxlan manager used to
+ignore a VTEP update without an IPv4 address while keeping the IPv4 VTEP it already held for that
+node (the EventSequencer coalesces the VXLANResolver's remove+update into that single update), so
+the node's blocks stayed routed via the stale VTEP whereas a manager that only saw the final message
+programmed nothing.  With the repair the history and the fresh manager agree. -/
+theorem stale_v4_vtep_fixed :
     let m0 : RM := { pt := ptVXLAN, me := 0, eth0Addr := 167772170, parent := true }
     let hist := (((m0.onVtep 2 (some (3232235522, 167772172))).onVtep 2 (some (0, 167772172))).onRouteUpdate wVxRoute)
     let fresh := ((m0.onVtep 2 (some (0, 167772172))).onRouteUpdate wVxRoute)
-    hist.targetOf wVxRoute = some (false, { cidr := ⟨3232235584, 26⟩, typ := .vxlan, gw := 3232235522 }) ∧
-    fresh.targetOf wVxRoute = none := by
+    hist.targetOf wVxRoute = none ∧ fresh.targetOf wVxRoute = none ∧
+    ((m0.onVtep 2 (some (3232235522, 167772172))).onRouteUpdate wVxRoute).targetOf wVxRoute
+      = some (false, { cidr := ⟨3232235584, 26⟩, typ := .vxlan, gw := 3232235522 }) := by
   decide
 
 end CalicoVerif.C43
